@@ -506,6 +506,14 @@ Qed.
 Lemma cstore_ok_default : cstore_ok cparams_default.
 Proof. intro p. apply cvalue_ok_default. Qed.
 
+Lemma cstore_ok_zero : cstore_ok cparams_zero.
+Proof.
+  intro p. destruct p; unfold cvalue_ok;
+    match goal with |- in_cbounds ?p _ \/ _ => with_bounds p end;
+    first [ left; eapply in_cbounds_intro; [exact Hb' | vm_compute; split; discriminate]
+          | right; split; reflexivity ].
+Qed.
+
 Lemma cstore_ok_init : forall level, in_cbounds C_compressionLevel level -> cstore_ok (cparams_init level).
 Proof.
   intros level Hl p. destruct p; try exact (cvalue_ok_default _). left. exact Hl.
@@ -1075,6 +1083,21 @@ Proof.
   - rewrite cupd_same. intros [(lo & hi & Hb & Hv)|[Hz _]]; [|discriminate Hz].
     vm_compute in Hb. injection Hb as <- <-. lia.
 Qed.
+
+(* ------------------------------------------------------------------ fresh objects *)
+Lemma fresh_objects_hold_defaults_l :
+  (forall o, c_params (cctx_new o) = cparams_default) /\ w_p world_new = cparams_default
+  /\ (forall o, c_params (get_c world_new o) = cparams_default)
+  /\ (forall o, dparams_of (get_d world_new o) = [0; 2 ^ z_ZSTD_WINDOWLOG_LIMIT_DEFAULT + 1; 0; 0; 0; 0; 0]).
+Proof. split; [intros []; reflexivity|]. split; [reflexivity|]. split; intros []; reflexivity. Qed.
+
+(* finding F22 (fixed by 32f35e7): with the old ZSTD_initStaticCCtx a fresh static context did not hold the defaults,
+   although a parameter reset installs them *)
+Lemma static_cctx_fresh_params_refuted_l :
+  c_params (cctx_new_prefix true) C_contentSizeFlag <> cparams_default C_contentSizeFlag
+  /\ c_params (cctx_new_prefix true) C_compressionLevel <> cparams_default C_compressionLevel
+  /\ c_params (fst (cctx_reset (cctx_new_prefix true) z_ZSTD_reset_parameters)) = cparams_default.
+Proof. split; [|split]; vm_compute; try discriminate; reflexivity. Qed.
 
 (* ------------------------------------------------------------------ the hypotheses are satisfiable *)
 Example ex_in_bounds : in_cbounds C_windowLog 17.
